@@ -21,12 +21,12 @@ IDS = frozenset({7, 8})
 OP_PRIO_OFFSET = 100  # report channels are named by (component_ids, priority) only: keep the groups apart
 
 MC_INV = ["Inv_SentIsSum", "Inv_SentInBounds", "ReportsAreMemos", "MustSendNeverDrops", "DevImpliesSent"]
-FIX_INV = ["SentIsSum", "SentInBounds", "ReportsAreMemos"]
+HARD_INV = ["SentIsSum", "SentInBounds", "ReportsAreMemos", "MustSendNeverDrops"]  # no deviation allowed
 ACTIONS = ["bounds", "reg", "op", "result", "tick"]
 DEV = "Dev_UnchangedGroupDroppedOnBoundsUpdate"
-# VERIF_C11_FIXED=1: validate against the specification WITH the proposed repair (Fixed = TRUE); used to
-# evaluate a repaired tree (no deviation is allowed then, and the transcription must agree with the code)
-FIXED = os.environ.get("VERIF_C11_FIXED", "") == "1"
+# The primary model is the design as repaired by /repo 52a89e3 (Fixed = TRUE).  VERIF_C11_LEGACY=1 validates
+# against the design before that repair instead (only for looking at an old tree; not used by ./check).
+FIXED = os.environ.get("VERIF_C11_LEGACY", "") != "1"
 
 
 def S(lo, hi, xlo=0, xhi=0, has=True):
@@ -47,7 +47,7 @@ SCOPES = {
         ),
         hist_limit=10000,
         every_second_one_in=4,  # in 1 of 4 executions the 1 s drop timer fires every second of a tick, else once per tick
-        fix_depth=6,
+        legacy_depth=5,  # design-level run of the model BEFORE the repair (keeps the named deviation exercised)
         sim=dict(NA=2, G=3, Prio=[1, 2], MaxAge=1, MaxClock=4, MaxDepth=10, XG=1, SysAlpha=[], RegAlpha=[], OpAlpha=[]),
         sim_num=2000,
     ),
@@ -60,7 +60,7 @@ SCOPES = {
         ),
         hist_limit=120000,
         every_second_one_in=1,
-        fix_depth=7,
+        legacy_depth=6,
         deep_depth=8,  # design-level invariants only (no emission / replay)
         sim=dict(NA=3, G=3, Prio=[1, 2, 4], MaxAge=1, MaxClock=6, MaxDepth=14, XG=2, SysAlpha=[], RegAlpha=[], OpAlpha=[]),
         sim_num=60000,
@@ -321,8 +321,9 @@ def _stage(rep: Report, name: str, consts: dict, work: Path, mode: str, limit, s
     # exhaustive emission runs with ONE worker: the depth bound reads the hidden history, and only a
     # strict breadth-first search reaches every state first by a shortest history (deterministic,
     # complete up to MaxDepth); with several workers the explored set varies from run to run
+    inv = HARD_INV if FIXED else MC_INV
     res = run_tlc(
-        "PowerManager", d, constants=consts, view="View", invariants=MC_INV + (["SimEmit"] if simulate else []),
+        "PowerManager", d, constants=consts, view="View", invariants=inv + (["SimEmit"] if simulate else []),
         env={"OUT_FILE": str(cases_file)}, simulate=simulate, workers=(NCPU if simulate else 1),
         depth=(consts["MaxDepth"] + 2 if simulate else None), seed=(SEED + 11 if simulate else None), timeout=timeout,
     )
@@ -332,7 +333,7 @@ def _stage(rep: Report, name: str, consts: dict, work: Path, mode: str, limit, s
         for s in (hh[1:] if simulate else hh[-1:]):
             acts[s["a"]] += 1
     res.coverage = acts
-    rep.add_mc(name, res, _printable(consts), MC_INV, mode=("simulate " + simulate) if simulate else "exhaustive, one history per transition")
+    rep.add_mc(name, res, _printable(consts), inv, mode=("simulate " + simulate) if simulate else "exhaustive, one history per transition")
     if not res.ok:
         rep.fail("C11.MC." + "/".join(res.violated), dict(stage=name, constants=_printable(consts)), res.counterexample[:3000])
         return
@@ -393,6 +394,10 @@ def _stage(rep: Report, name: str, consts: dict, work: Path, mode: str, limit, s
         raise RuntimeError(f"vacuity: no request while inclusion bounds were known in {name}")
     if not ex["both_groups_have_target"]:
         raise RuntimeError(f"vacuity: no request while both groups had a target in {name}")
+    if not ex["requests_after"]["bounds"]:
+        raise RuntimeError(f"vacuity: no request after a bounds update in {name}")
+    if FIXED and not obs.get("OBS.UnchangedGroupSubstituted"):
+        raise RuntimeError(f"vacuity: no bounds update in {name} on which exactly one group's target changed")
     rep.extra.setdefault("stages", []).append(
         dict(stage=name, cases_emitted=total, cases_replayed=len(cases), traces_validated=done, val_states=st["states"],
              transitions_per_action=acts, exercised=ex, deviation_fired=dev_fired, disagreements=dis, observations=obs)
@@ -415,20 +420,22 @@ def _trace_consts(consts: dict) -> dict:
 def _deep_design(rep: Report, consts: dict, depth: int, work: Path) -> None:
     """Design-level invariants of the model of the code as it is, deeper than what is replayed."""
     consts = dict(consts, MaxDepth=depth, Fixed=FIXED, Mode="history")
-    res = run_tlc("PowerManager", work / "deep_design", constants=consts, view="ViewD", invariants=MC_INV, timeout=6000)
-    rep.add_mc("deep_design", res, _printable(consts), MC_INV, mode="exhaustive, design level only")
+    inv = HARD_INV if FIXED else MC_INV
+    res = run_tlc("PowerManager", work / "deep_design", constants=consts, view="ViewD", invariants=inv, timeout=6000)
+    rep.add_mc("deep_design", res, _printable(consts), inv, mode="exhaustive, design level only")
     if not res.ok:
         rep.fail("C11.MC." + "/".join(res.violated), dict(stage="deep_design", constants=_printable(consts)), res.counterexample[:3000])
 
 
-def _fix_design(rep: Report, consts: dict, depth: int, work: Path) -> None:
-    """Design-level check of the proposed repair (Fixed = TRUE): both clauses without any deviation."""
-    consts = dict(consts, MaxDepth=depth, Fixed=True, Mode="history")
-    res = run_tlc("PowerManager", work / "fixed_design", constants=consts, view="ViewD", invariants=FIX_INV, timeout=3000)
-    rep.add_mc("fixed_design", res, _printable(consts), FIX_INV, mode="exhaustive, proposed repair, no deviation allowed")
-    rep.extra["proposed_repair_holds_in_model"] = bool(res.ok)
+def _legacy_design(rep: Report, consts: dict, depth: int, work: Path) -> None:
+    """Design-level run of the model BEFORE the repair (Fixed = FALSE): SentIsSum fails there exactly under the
+    named deviation (invariant `SentIsSum \\/ Dev_...`), SentInBounds holds.  Says nothing about the code."""
+    consts = dict(consts, MaxDepth=depth, Fixed=False, Mode="history")
+    res = run_tlc("PowerManager", work / "legacy_design", constants=consts, view="ViewD", invariants=MC_INV, timeout=3000)
+    rep.add_mc("legacy_design", res, _printable(consts), MC_INV, mode="exhaustive, design before the repair, named deviation allowed")
+    rep.extra["old_design_fails_only_under_named_deviation"] = bool(res.ok)
     if not res.ok:
-        rep.notes.append("the proposed repair does NOT satisfy " + "/".join(res.violated) + " in the model")
+        rep.notes.append("model of the design before the repair: " + "/".join(res.violated) + " fails outside the named deviation")
 
 
 def run(prop: str, tier: str) -> int:
@@ -447,7 +454,8 @@ def run(prop: str, tier: str) -> int:
     ]
     one_in = sc["every_second_one_in"]
     _stage(rep, "history", sc["hist"], work, "history", sc["hist_limit"], every_second_one_in=one_in)
-    _fix_design(rep, sc["hist"], sc["fix_depth"], work)
+    if FIXED:
+        _legacy_design(rep, sc["hist"], sc["legacy_depth"], work)
     if "deep_depth" in sc:
         _deep_design(rep, sc["hist"], sc["deep_depth"], work)
     n = sc["sim_num"]
